@@ -5,6 +5,9 @@ HERE = os.path.dirname(os.path.abspath(__file__))
 TB = ("Lean 4.33.0 kernel (axioms: propext, Classical.choice, Quot.sound only; audited per theorem); "
       "hand-written Lean model tied to the code by an in-process differential correspondence run (go build -overlay harness) on every run; ")
 CHECKS = {
+ "C18": dict(text="Lean theorems findUpwards_nearest and findConfig_spec (chains of any depth: a returned config sits in the closest directory that has a .regal directory or .regal.yaml; both kinds there is the conflict error), fallback_chain (no config: user-level file, else defaults), merge_keeps_defaults / merge_only_overrides / merge_ignore; deviations proved on the model and replayed (conflict_swallowed, empty_regal_dir_shadows: known findings). Tie: exhaustive placements on depth <= 4 through the real FindConfig on temp directories; the real `regal lint` binary with a fake $HOME revealing which config file was applied; merge of generated user configs over the real defaults (every default rule and option kept unless written) and YAML dump/reload.",
+             note=TB + "mergo and yaml.v3 are sampled, not modelled beyond levels/ignore; capabilities round trip is a known finding", ref="5/C18",
+             technique="Lean 4 proof (induction on the directory chain) + exhaustive differential correspondence + end-to-end oracle"),
  "C16": dict(text="Lean model of splitLines / shortestEditSequence / backtrack / operations / ComputeEdits function by function (V as total function, index bounds separate) and theorems for ALL documents: splitLines_flatten, operations_render (for every good snake chain the emitted operations render `before` into `after`), computeEdits_correct_partial; the remaining obligations (trace invariant => good chain, edits = operations under LSP semantics, totality) are named in the theorem file. Tie: the operation list (field by field, so tie-breaking must match), the edits and the applied result are compared with the real ComputeEdits on 12 000 (quick) / all 131 769 (thorough) pairs over the line alphabet {a,b,empty}<=4 lines with/without final newline plus random realistic pairs; an independent LSP-client applyTextEdits checks 'after' and ordering/bounds.",
              note=TB + "LSP client semantics as implemented by the harness; proof is partial as stated in Props/C16.lean", ref="5/C16",
              technique="Lean 4 proof (induction over the snake walk) + exhaustive differential correspondence"),
